@@ -12,7 +12,8 @@ import numpy as np
 
 from common import (Ctx, LeanDriver, Property, dyadic, err_kind, list_s, listlist_s, parse_list, rat_s, run_property)
 
-TOL = 2e-5
+TOL = 1.5e-5   # supercell / crystal comparisons (observed <= 3e-6)
+TOL_SHIFT = 5e-6  # whole-pixel translation vs roll (observed <= 1e-6); relative to the slice-stack maximum
 
 
 def rel(a, b):
@@ -33,20 +34,52 @@ def make_atoms(c):
 def build(atoms, c, gpts=None, lazy=False):
     from abtem import Potential
 
+    par = c["parametrization"]
+    if c.get("sigmas"):  # thermal smearing of the parametrization (float: the same sigma for every species)
+        from abtem.parametrizations import KirklandParametrization, LobatoParametrization, PengParametrization
+
+        par = {"lobato": LobatoParametrization, "kirkland": KirklandParametrization, "peng": PengParametrization}[par](sigmas=c["sigmas"])
     p = Potential(atoms, gpts=tuple(gpts or c["gpts"]), slice_thickness=c["cell"][2] / c["nslices"], projection=c["projection"],
-                  parametrization=c["parametrization"])
+                  parametrization=par)
     return p.build(lazy=lazy).compute() if lazy else p.build(lazy=False)
+
+
+def build_lazy_tile(atoms, c, r):
+    from abtem import Potential
+
+    par = c["parametrization"]
+    if c.get("sigmas"):
+        from abtem.parametrizations import KirklandParametrization, LobatoParametrization, PengParametrization
+
+        par = {"lobato": LobatoParametrization, "kirkland": KirklandParametrization, "peng": PengParametrization}[par](sigmas=c["sigmas"])
+    p = Potential(atoms, gpts=tuple(c["gpts"]), slice_thickness=c["cell"][2] / c["nslices"], projection=c["projection"], parametrization=par)
+    return p.build(lazy=True).tile(tuple(r)).compute()
 
 
 def gen_case(ctx: Ctx, kind):
     rng = ctx.rng
     gpts = [rng.choice([12, 16, 20, 24]), rng.choice([12, 16, 20, 24])]
-    cell = [dyadic(rng, 4, 6, 2), dyadic(rng, 4, 6, 2), dyadic(rng, 2, 4, 1)]
+    cell = [dyadic(rng, 4, 6, 2) * rng.choice([1, 1, 1.5]), dyadic(rng, 4, 6, 2) * rng.choice([1, 1, 2]), dyadic(rng, 2, 4, 1)]
     nat = rng.randint(1, 4)
+    sx, sy = cell[0] / gpts[0], cell[1] / gpts[1]
+
+    def coord(L, smp):
+        """generic dyadic coordinate, or one of the delicate ones: on the periodic boundary from either side (what
+        ase's wrap() leaves: -2e-16), exactly on a pixel centre, exactly half-way between two pixels (rounding tie)"""
+        k = rng.random()
+        if k < 0.6:
+            return dyadic(rng, 0, L, 4)
+        if k < 0.7:
+            return rng.choice([0.0, -2.2e-16, -1e-13, L - 1e-13, 1e-13])
+        if k < 0.85:
+            return rng.randint(0, 8) * smp
+        return (rng.randint(0, 8) + 0.5) * smp
+
     c = dict(oracle=kind, gpts=gpts, cell=cell, symbols=[rng.choice(["Si", "C", "O", "Au", "Ga"]) for _ in range(nat)],
-             positions=[[dyadic(rng, 0, cell[0], 4), dyadic(rng, 0, cell[1], 4), dyadic(rng, 0, cell[2], 4)] for _ in range(nat)],
+             positions=[[coord(cell[0], sx), coord(cell[1], sy), dyadic(rng, 0, cell[2], 4)] for _ in range(nat)],
              nslices=rng.randint(1, 3), projection=rng.choice(["infinite", "infinite", "finite"]),
-             parametrization=rng.choice(["lobato", "kirkland"]), lazy=rng.random() < 0.3)
+             parametrization=rng.choice(["lobato", "kirkland", "peng"]), lazy=rng.random() < 0.3,
+             sigmas=rng.choice([None, None, 0.1, 0.2]))
     if kind == "shift":
         c["shift"] = [rng.randint(-2 * gpts[0], 2 * gpts[0]), rng.randint(-2 * gpts[1], 2 * gpts[1])]
         c["wrap"] = rng.random() < 0.5
@@ -83,14 +116,16 @@ def _oracle(ctx: Ctx, c):
             a2.wrap()
         P2 = np.asarray(build(a2, c, lazy=c["lazy"]).array)
         d = rel(P2, np.roll(P, tuple(c["shift"]), axis=(-2, -1)))
-        if not d <= TOL:
+        if not d <= TOL_SHIFT:
             key = f"pixel-shift-ne-roll:{c['projection']}"
             detail = {"what": "potential of atoms translated by whole pixels differs from the rolled potential", "rel_linf": d}
     elif c["oracle"] == "repeat":
         r = c["reps"]
         big = build(atoms * tuple(r), c | {"cell": [c["cell"][0] * r[0], c["cell"][1] * r[1], c["cell"][2] * r[2]], "nslices": c["nslices"] * r[2]},
                     gpts=(c["gpts"][0] * r[0], c["gpts"][1] * r[1]), lazy=c["lazy"])
-        tiled = base.tile(tuple(r))
+        # tile of the eager array, or (lazy cases) tile of the lazy PotentialArray computed afterwards
+        from abtem import Potential as _P
+        tiled = base.tile(tuple(r)) if not c["lazy"] else build_lazy_tile(atoms, c, r)
         d = rel(np.asarray(big.array), np.asarray(tiled.array))
         if not d <= TOL or tuple(np.round(big.extent, 9)) != tuple(np.round(tiled.extent, 9)):
             key = f"supercell-ne-tile:{c['projection']}"
@@ -99,8 +134,13 @@ def _oracle(ctx: Ctx, c):
         elif c["crystal"]:
             from abtem import CrystalPotential, Potential
 
+            par = c["parametrization"]
+            if c.get("sigmas"):
+                from abtem.parametrizations import KirklandParametrization, LobatoParametrization, PengParametrization
+
+                par = {"lobato": LobatoParametrization, "kirkland": KirklandParametrization, "peng": PengParametrization}[par](sigmas=c["sigmas"])
             unit = Potential(atoms, gpts=tuple(c["gpts"]), slice_thickness=c["cell"][2] / c["nslices"], projection=c["projection"],
-                             parametrization=c["parametrization"])
+                             parametrization=par)
             cp = CrystalPotential(unit, repetitions=tuple(r)).build(lazy=c["lazy"])
             if c["lazy"]:
                 cp = cp.compute()
@@ -136,7 +176,8 @@ class C08(Property):
     ]
     assumptions = ["orthogonal cells; scattering factors / radial tables depend on the grid only through gpts and sampling"]
     rule = ("correspondence: random dyadic pixel positions (inside, outside, on pixel centres and edges), weights, both branches; "
-            "conformance: random 1-4 atom cells, gpts 12-24, 1-3 slices, infinite/finite projection, lobato/kirkland, lazy/eager; "
+            "conformance: random 1-4 atom cells (aspect up to 2:1), gpts 12-24, 1-3 slices, infinite/finite projection, lobato/kirkland/peng, optional thermal sigmas, "
+            "atoms on the periodic boundary / pixel centres / half-pixel ties, lazy/eager; "
             "distinct = distinct case JSON")
 
     def correspondence(self, ctx: Ctx):
@@ -221,12 +262,13 @@ class C08(Property):
             ctx.count("deltas-tile")
             ctx.case(c, nontrivial=r0 * r1 > 1)
         kinds = ["shift", "repeat", "subpixel"]
-        for i in range(ctx.n(24, 300)):
+        for i in range(ctx.n(36, 300)):
             c = gen_case(ctx, kinds[i % 3])
-            if i < 6:
+            if i < 12:
                 c["projection"] = ["infinite", "finite"][i % 2] if c["oracle"] != "subpixel" else "infinite"
+                c["sigmas"] = [None, 0.15][(i // 6) % 2]
             oracle(ctx, c)
-            ctx.count(f"{c['oracle']}:{c['projection']}:{'lazy' if c['lazy'] else 'eager'}")
+            ctx.count(f"{c['oracle']}:{c['projection']}:{'lazy' if c['lazy'] else 'eager'}:{'thermal' if c.get('sigmas') else 'static'}")
             ctx.case(c, nontrivial=True)
 
     def deltas_tile(self, ctx: Ctx, c):
